@@ -391,7 +391,7 @@ func runC19(c *Ctx) {
 			}
 		}
 		if n == 0 {
-			anchorFail("C19-D6: no store to packetQueue.drain found")
+			c.Undecided("C19-D6: no store to packetQueue.drain found")
 		}
 	}
 
